@@ -5,12 +5,14 @@ skeletons are textually identical up to the function / state-record names, and s
 Run after editing SkelThetaSim.lean; the result is committed (it is a proof file, not a generated model)."""
 import os, re
 here = os.path.dirname(os.path.abspath(__file__))
-src = os.path.join(here, '..', '..', 'lean', 'SqiProofs', 'SkelThetaSim.lean')
-dst = os.path.join(here, '..', '..', 'lean', 'SqiProofs', 'SkelThetaFSim.lean')
-s = open(src).read()
-s = s.replace('theta_chain_comput_strategy', 'theta_chain_comput_strategy_faster_no_eval')
-s = s.replace('ThetaSt', 'ThetaFSt')
-s = s.replace('SqiProofs.SkelThetaSim', 'SqiProofs.SkelThetaFSim')
-s = s.replace('/-\nSimulation between', '/-\n(derived from SkelThetaSim.lean by tools/dev/dup_theta_sim.py — edit that file, not this one)\nSimulation between', 1)
-open(dst, 'w').write(s)
-print('written', os.path.normpath(dst))
+for a, b in (('SkelThetaSim', 'SkelThetaFSim'), ('SkelThetaConv', 'SkelThetaFConv')):
+    src = os.path.join(here, '..', '..', 'lean', 'SqiProofs', a + '.lean')
+    dst = os.path.join(here, '..', '..', 'lean', 'SqiProofs', b + '.lean')
+    s = open(src).read()
+    s = s.replace('theta_chain_comput_strategy', 'theta_chain_comput_strategy_faster_no_eval')
+    s = s.replace('ThetaSt', 'ThetaFSt')
+    s = s.replace('SqiProofs.SkelThetaSim', 'SqiProofs.SkelThetaFSim')
+    s = s.replace('SqiProofs.SkelThetaConv', 'SqiProofs.SkelThetaFConv')
+    s = s.replace('/-\n', '/-\n(derived from %s.lean by tools/dev/dup_theta_sim.py — edit that file, not this one)\n' % a, 1)
+    open(dst, 'w').write(s)
+    print('written', os.path.normpath(dst))
